@@ -9,7 +9,7 @@ CONSTANTS
   Fam <- MCFam
   ListenFam <- MCListenFam
   Strict = FALSE
-  ReqFams = {0}
+  ReqFams = {0, 6}
   ChanNums = {16384}
   LifeReqs <- MCLifeTime
   Txids = {"t1", "t2"}
